@@ -302,6 +302,7 @@ def cases(draw, tier):
         "makedirs": True,
         "ext": True,
         "reuse_bias": True,
+        "move_in_replace": True,
         "weights": {"ext_create": 2, "ext_mkdir": 2, "ext_write": 1, "ext_unlink": 1, "ext_rmtree": 3, "ext_rename": 1, "move_out": 6, "mkdir": 6, "makedirs": 5, "rmtree": 4, "rmdir": 3},
     }
     h = draw(fsops.histories(opts))
